@@ -32,8 +32,12 @@ ASSUMPTIONS = [
     "Python int is Z; str is its UTF-8 bytes (no lone surrogates); float is its binary64 pattern; aware datetimes are microseconds since the epoch",
     "object identity / aliasing is not modelled (from_dict stores the caller's list and dict objects in the message)",
     "theorems are about to_dict(include_default_values=False), the default; include_default_values=True is covered by the correspondence only",
-    "values: wf_schema, in_range, at most one member per oneof group (oneof_ok), keys_ok (the keys of a class are distinct and map back, C19), "
-    "json_supported = no unknown fields, no lazily created non-empty intermediates (K12), NaN canonical and not inside repeated/map",
+    "hypotheses of C04_dict_rt / C04_text_rt: wf_schema, keys_ok (the keys of a class are distinct and map back, C19), good = in_range "
+    "(C01's in-range values) + oneof_ok (a oneof member holds a value iff its group selects it) + dicts_ok (dict keys distinct, a Python "
+    "invariant) + json_supported = no unknown fields, no lazily created non-empty intermediates (K12), NaN canonical and not inside "
+    "repeated/map; C04_dumps_total needs only wf_schema, in_range, oneof_ok",
+    "repeated wrapper fields (repeated google.protobuf.BytesValue ...) are outside WellFormed.wf_schema: covered by the correspondence and "
+    "the oracle (own schema of this check), not by the theorems",
 ]
 RULE = ("messages of the systematic schema (every scalar kind x {plain, optional, repeated, oneof member, map value, map key, wrapper}, "
         "nested/recursive, Timestamp/Duration, enums with aliases/negatives/unnamed numbers) and of random schemas; values from boundary/"
